@@ -1248,6 +1248,7 @@ Run()
 
   for (auto &[k, v] : eng.merged_.c) res.Add(k, v);
   res.Add("ops_total", g_ops_done.load());
+  res.Add("evaluations", g_ops_done.load());
   res.Add("runs", 1);
   res.Add("wall_ms", wall / 1000000);
   uint64_t xs = 0;
